@@ -276,9 +276,10 @@ func genValue(t *rapid.T, in *Inst) int {
 
 func genInst(t *rapid.T, idx, base, nscopes, rounds int, prev *Inst) Inst {
 	in := Inst{}
-	in.Kind = rapid.SampledFrom(kinds).Draw(t, "kind")
+	// histograms twice as likely as any other kind: two aggregations to cover
+	in.Kind = rapid.SampledFrom(append([]string{"i64hist", "f64hist"}, kinds...)).Draw(t, "kind")
 	in.Unit = genUnit(t)
-	if isHist(in.Kind) && rapid.Bool().Draw(t, "exphist") {
+	if isHist(in.Kind) && rapid.IntRange(0, 9).Draw(t, "exphist") < 6 {
 		in.ExpSize = rapid.SampledFrom([]int{160, 20, 4}).Draw(t, "expsize")
 		in.ExpScale = rapid.SampledFrom([]int{20, 3, 0, -2}).Draw(t, "expscale")
 		in.ExpSign = rapid.SampledFrom([]int{2, 2, 0, 1}).Draw(t, "expsign")
